@@ -116,6 +116,9 @@ def main():
             cases.append({'kind': 'valid', 'name': name, 'text': text})
         else:
             cases.append({'kind': 'invalid', 'name': 'interface-paths', 'cls': 'interfaced-name-clash', 'detail': name, 'planted': 'p', 'text': text})
+    # one name declared twice by declarations of different kinds
+    for name, text, planted in gfam.duplicate_kinds():
+        cases.append({'kind': 'invalid', 'name': 'duplicate-kinds', 'cls': 'duplicate-declaration:other-kind', 'detail': name, 'planted': planted, 'text': text})
     # one schema per parametrised diagnostic of the front end (group reference of a non-entity, circular type definition, missing INCLUDE ...)
     for c in gfam.diagnostic_catalogue():
         if c['cls'] == 'always-true-branch':
